@@ -183,7 +183,7 @@ class TzdbDateTimeZoneSource(IDateTimeZoneSource, metaclass=__TzdbDateTimeZoneSo
 
     def for_id(self, id_: str) -> DateTimeZone:
         # TODO: inheritdoc?
-        if not (canonical_id := self.canonical_id_map.get(_Preconditions._check_not_null(id_, "id_"))):
+        if (canonical_id := self.canonical_id_map.get(_Preconditions._check_not_null(id_, "id_"))) is None:
             raise ValueError(f"Time zone with ID {id_} not found in source {self.__version}")
         return self.__source.create_zone(id_, canonical_id)
 
